@@ -307,7 +307,8 @@ HCIcnbit_encode(compinfo_t *info, int32 length, const uint8 *buf)
         if (mask_info->length > 0) {      /* check if we need to output bits */
             output_bits =
                 (uint32)(((*buf) & (mask_info->mask)) >> ((mask_info->offset - mask_info->length) + 1));
-            Hbitwrite(info->aid, mask_info->length, output_bits);
+            if (Hbitwrite(info->aid, mask_info->length, output_bits) != mask_info->length)
+                HRETURN_ERROR(DFE_CENCODE, FAIL);
         }
 
         /* advance to the next mask position */
